@@ -5,10 +5,9 @@
   computeReachableLocked, removeUnreachableLocked, addMissingReachableLocked,
   isWorkspaceFileLocked, clearCachesLocked, sameStringSlice, removeString, addString,
   GetCommodityFormats, GetDeclaredCommodities, GetDeclaredAccounts, IndexSnapshot;
-  of include.Loader.Load / loadWithContent / loadSingleInclude on a FRESH loader (empty
-  cache: within one Load the cache is only ever consulted for paths that are not yet
-  visited, and only visited paths are cached, so it is never hit), and of
-  include.ResolvedJournal.AllDirectives.
+  of include.Loader.Load / loadWithContent / loadParsed / loadSingleInclude on a FRESH
+  loader (empty cache: within one Load every path is looked up in the cache at most once,
+  before it is cached), and of include.ResolvedJournal.AllDirectives.
 
   Files are named by their path relative to the workspace directory; the file system is an
   association list `FS` from names to contributions (HL/Model/Index.lean); a name without
@@ -101,18 +100,21 @@ structure LoadSt where
   order : List String := []
   deriving Repr
 
-/-- `loadWithContent` / `loadSingleInclude` as a work list: `todo` holds the include
-    targets still to be processed, depth first. -/
-def loadF (limit : Nat) (fs : FS) : Nat → List String → LoadSt → LoadSt
+/-- `loadParsed` / `loadSingleInclude` as a work list: `todo` holds the include targets still
+    to be processed, depth first, each with the depth of the file that includes it (the
+    number of include directives between the root and that file).  A target that has been
+    seen (on the include stack: "cycle detected"; or loaded through another path) is not
+    loaded again. -/
+def loadF (limit : Nat) (fs : FS) : Nat → List (String × Nat) → LoadSt → LoadSt
   | 0, _, st => st
   | _+1, [], st => st
-  | n+1, p :: rest, st =>
-    if p ∈ st.visited then loadF limit fs n rest st            -- "cycle detected"
+  | n+1, (p, d) :: rest, st =>
+    if p ∈ st.visited then loadF limit fs n rest st            -- seen
     else match fs.get p with
       | none => loadF limit fs n rest st                         -- cannot read included file
       | some c =>
-        if st.visited.length ≥ limit then loadF limit fs n rest st   -- depth limit exceeded
-        else loadF limit fs n (c.incs ++ rest)
+        if d + 1 ≥ limit then loadF limit fs n rest st           -- include depth limit exceeded
+        else loadF limit fs n (c.incs.map (·, d + 1) ++ rest)
           { visited := st.visited ++ [p], files := st.files.set p c, order := st.order ++ [p] }
 
 /-- every loop iteration either pops a target or visits a new file and pushes its targets -/
@@ -120,7 +122,7 @@ def loadFuel (fs : FS) (c : Contrib) : Nat :=
   c.incs.length + (fs.map fun e => e.2.incs.length + 1).sum + 1
 
 def load (limit : Nat) (fs : FS) (root : String) (c : Contrib) : LoadSt :=
-  loadF limit fs (loadFuel fs c) c.incs { visited := [root] }
+  loadF limit fs (loadFuel fs c) (c.incs.map (·, 0)) { visited := [root] }
 
 /-! ### Include edges, resolved journal, caches -/
 
